@@ -4,7 +4,7 @@
    cola/linalg/inverse/gmres.py (gmres_fwd) over an abstract scalar/vector interface; the same term is executed on
    PrimFloat by the correspondence check. *)
 From Coq Require Import List Bool Arith QArith Qcanon.
-From Core Require Import C12_Ops C12_Witness C13_Model C13_Proofs C13_Reduction C13_Summary C13_Witness.
+From Core Require Import C12_Ops C12_Witness C13_Model C13_Proofs C13_Reduction C13_Loop C13_Link C13_Summary C13_Witness.
 Import ListNotations.
 Local Close Scope Qc_scope. Local Close Scope Q_scope.
 
@@ -34,6 +34,21 @@ Theorem C13_arnoldi_step : forall (T V : Type) (o : ops T) (vo : vops T V), arn_
     forall u, vdot vo u (A (alast c)) = lsum o (zipw (fun h q => omul o h (vdot vo u q)) hcol (aqs c')).
 Proof. exact @arnoldi_step_b. Qed.
 Print Assumptions C13_arnoldi_step.
+
+(* the whole loop of one column: after k unclipped steps the basis q_0..q_k is orthonormal, its last element is the loop
+   variable, and every filled column j of H satisfies the Arnoldi relation (AInv) *)
+Theorem C13_arnoldi_invariant : forall (T V : Type) (o : ops T) (vo : vops T V), arn_laws o vo ->
+  forall (A : V -> V) (tol : T) (r0 : V) (K : nat), vnrm o vo r0 <> o0 o ->
+  (forall k, k < K -> unclipped o vo A tol (acs o vo A tol r0 k)) ->
+  forall k, k <= K -> AInv o vo A k (acs o vo A tol r0 k).
+Proof. exact @arnoldi_invariant_b. Qed.
+Print Assumptions C13_arnoldi_invariant.
+
+(* the full statement for the value returned by gmres_fwd (flag gmres_square_H cleared): minimal residual over
+   x0 + K_m(A, r0) and residual <= ||r0||, after exactly m products *)
+Theorem C13_gmres_fwd_minimal : C13_full.
+Proof. exact C13_full_proved. Qed.
+Print Assumptions C13_gmres_fwd_minimal.
 
 (* normal equations characterise the minimiser: a residual r0 - sum_j y_j w_j orthogonal to every w_j (= A q_j) has the
    smallest squared norm among all coefficient vectors ([Pos] = "is a non-negative real") *)
